@@ -648,8 +648,8 @@ Qed.
 Lemma safe_step o m : safe m -> safe (fst (mstep all_fixed m o)).
 Proof.
   intros S. pose proof S as [Hal Hlo Hbo]. unfold mstep. rewrite Hal.
-  cbn [all_fixed fx21 fx22 fxN1 fxN2].
-  destruct o as [|idx rules|k x h|k x h|i k x|i|i|i|i|idx|srcs].
+  cbn [all_fixed fx21 fx22 fxN1 fxN2 fxN3].
+  destruct o as [|idx rules|k x h|k x h|i k x|i|i|i|i|idx|srcs|k x h].
   - (* ONew *) cbn [fst]. apply safe_grow; auto.
   - (* OSetBucket *)
     destruct (parse_rules rules) as [rs ok]. cbn [fst].
@@ -679,9 +679,10 @@ Proof.
     destruct (avg_keys_fixed (i0 :: srcs) (map fst (vals s0)) (objs m) [] Hlo) as (kvs & ->).
     { intros i Hi. rewrite forallb_forall in Er. apply Nat.ltb_lt. apply Er. exact Hi. }
     cbn [fst]. apply safe_grow; auto.
+  - (* OWireErr *) exact S.
 Qed.
 
-(* HEADLINE: with the four repairs no sequence of operations, on whatever bucket
+(* HEADLINE: with the repairs no sequence of operations, on whatever bucket
    specifications (malformed ones included) and result sets, crashes or blocks *)
 Theorem fixed_never_fails : forall st ops,
   dead (fst (mrun all_fixed (init_state st) ops)) = None.
@@ -699,13 +700,13 @@ Qed.
 Theorem malformed_rule_crash_witness :
   exists ops, ops = [OSetBucket 0 ["5:7"; ":3"]; OMeasure "a" 1%Q 6] /\
     dead (fst (mrun pinned (init_state []) ops)) = Some FCrash /\
-    dead (fst (mrun (mkFix false false true false) (init_state []) ops)) = None.
+    dead (fst (mrun (mkFix false false true false false) (init_state []) ops)) = None.
 Proof. eexists. split; [reflexivity|]. split; vm_compute; reflexivity. Qed.
 
 Theorem average_lock_leak_witness :
   exists ops, ops = [ONew; ODirect 1 "a" 1%Q; ONew; ODirect 2 "b" 2%Q; OAverage [1; 2]; OValues 2] /\
     dead (fst (mrun pinned (init_state []) ops)) = Some FDeadlock /\
-    dead (fst (mrun (mkFix false false false true) (init_state []) ops)) = None.
+    dead (fst (mrun (mkFix false false false true false) (init_state []) ops)) = None.
 Proof. eexists. split; [reflexivity|]. split; vm_compute; reflexivity. Qed.
 
 (* ---------- read-outs are irrelevant (repaired code) ---------------------------------- *)
@@ -933,7 +934,7 @@ Proof.
   assert (Hhd : match objs m with s :: _ => statics s | [] => [] end =
                 match objs m' with s :: _ => statics s | [] => [] end).
   { destruct A as [|s s' l l' (Hs & _) _]; [reflexivity|exact Hs]. }
-  destruct o as [|idx rules|k x h|k x h|i k x|i|i|i|i|idx|srcs].
+  destruct o as [|idx rules|k x h|k x h|i k x|i|i|i|i|idx|srcs|k x h].
   - (* ONew *) rewrite <- Hhd. split; [|reflexivity]. cbn [fst].
     apply with_objs_equiv; [exact E|]. apply Forall2_app'; [exact A|]. constructor; [apply stats_equiv_refl|constructor].
   - (* OSetBucket *) rewrite <- Hhd, <- B, (Forall2_len _ _ _ A).
@@ -989,6 +990,9 @@ Proof.
         apply with_objs_equiv; [exact E|]. apply Forall2_app'; [exact Hab|].
         constructor; [apply stats_equiv_refl|constructor].
       * unfold die. split; [|reflexivity]. cbn [fst]. repeat split; auto.
+  - (* OWireErr *) destruct (fxN3 fx); [split; [exact E|reflexivity]|].
+    destruct (String.eqb (lower k) "end"); [split; [exact E|reflexivity]|].
+    apply do_measure_equiv; exact E.
 Qed.
 
 (* a read-out leaves the state equivalent to what it was *)
@@ -1004,7 +1008,7 @@ Proof.
     clear -Ei Hg. revert i Ei. induction (objs m) as [|y l IH]; intros [|i] Ei; simpl in *; try discriminate.
     - injection Ei as ->. constructor; [apply Hg|apply Forall2_refl', stats_equiv_refl].
     - constructor; [apply stats_equiv_refl|apply IH; exact Ei]. }
-  destruct o as [|idx rules|k x h|k x h|i k x|i|i|i|i|idx|srcs]; try discriminate; cbn [all_fixed fx21 fx22].
+  destruct o as [|idx rules|k x h|k x h|i k x|i|i|i|i|idx|srcs|k x h]; try discriminate; cbn [all_fixed fx21 fx22].
   - apply (Hobj i (stats_collect true true) (fun _ => OutNone)). intros s; apply stats_collect_self.
   - apply (Hobj i (stats_collect true true) (fun _ => OutNone)). intros s; apply stats_collect_self.
   - unfold on_obj. destruct (nth_error (objs m) i) as [s|] eqn:Ei; [|apply st_equiv_refl].
@@ -1153,3 +1157,65 @@ Example average_stats_union_example :
   final_out all_fixed [] ops (OValues 3) =
   OutValues [] [("a", exact [1%Q; 2%Q; 6%Q])].
 Proof. vm_compute. reflexivity. Qed.
+
+(* ---------- C19-N3: a message that fails to decode -------------------------------------- *)
+
+Definition out_keys (o : out) : list string :=
+  match o with OutValues _ rows | OutGet _ rows => map fst rows | _ => [] end.
+
+(* the pinned handleConnection forwards the half-filled struct: a measure
+   nobody recorded (here the empty name with value 0) appears in the results *)
+Theorem undecodable_message_witness :
+  exists ops, ops = [OWire "a" 1%Q 2; OWireErr "" 0%Q 0] /\
+    out_keys (final_out pinned [] ops (OValues 0)) = [""; "a"] /\
+    out_keys (final_out (mkFix false false false false true) [] ops (OValues 0)) = ["a"].
+Proof. eexists. split; [reflexivity|]. split; vm_compute; reflexivity. Qed.
+
+(* repaired: such a message changes nothing, in any state *)
+Theorem undecodable_message_ignored : forall fx m k x h,
+  fxN3 fx = true -> fst (mstep fx m (OWireErr k x h)) = m.
+Proof.
+  intros fx m k x h H. unfold mstep. destruct (dead m); [reflexivity|]. rewrite H. reflexivity.
+Qed.
+
+(* ---------- arrival order at the monitor ------------------------------------------------ *)
+
+Lemma recorded_perm k p ms ms' : Permutation ms ms' ->
+  Permutation (recorded k p ms) (recorded k p ms').
+Proof.
+  intros P. unfold recorded. apply Permutation_map.
+  induction P as [|x l l' _ IH|x y l|l1 l2 l3 _ IH1 _ IH2]; simpl.
+  - constructor.
+  - destruct (String.eqb k (m_name x) && p (m_host x)); [apply perm_skip|]; exact IH.
+  - destruct (String.eqb k (m_name x) && p (m_host x)), (String.eqb k (m_name y) && p (m_host y));
+      try apply Permutation_refl. apply perm_swap.
+  - eapply Permutation_trans; eauto.
+Qed.
+
+(* HEADLINE: two runs of the monitor that receive the same measures in different
+   orders (any scheduling of any number of reporting connections) hold, in the
+   global result set and in every bucket, value lists with the same exact
+   statistics -- so with F21/F22 repaired they report the same numbers
+   (values_report_exact), and the pinned code does on its first read-out. *)
+Theorem arrival_order_irrelevant : forall fx st bs ms ms',
+  NoDup (map fst bs) ->
+  (forall b, In b bs -> snd (parse_rules (snd b)) = true) ->
+  Permutation ms ms' ->
+  let m := fst (mrun fx (init_state st) (setups bs ++ mops ms)) in
+  let m' := fst (mrun fx (init_state st) (setups bs ++ mops ms')) in
+  forall i k, (i <= List.length bs)%nat ->
+    Permutation (store_at m i k) (store_at m' i k) /\
+    snap_eq (exact (store_at m i k)) (exact (store_at m' i k)).
+Proof.
+  intros fx st bs ms ms' Hnd Hok P m m' i k Hi.
+  destruct (buckets_exact fx st bs ms Hnd Hok) as (_ & H0 & Hb).
+  destruct (buckets_exact fx st bs ms' Hnd Hok) as (_ & H0' & Hb').
+  fold m in H0, Hb. fold m' in H0', Hb'.
+  assert (HP : Permutation (store_at m i k) (store_at m' i k)).
+  { destruct i as [|j].
+    - rewrite H0, H0'. apply recorded_perm. exact P.
+    - destruct (nth_error bs j) as [[idx rules]|] eqn:Ej.
+      + rewrite (Hb j idx rules Ej), (Hb' j idx rules Ej). apply recorded_perm. exact P.
+      + apply nth_error_None in Ej. lia. }
+  split; [exact HP|]. apply exact_perm. exact HP.
+Qed.
